@@ -1,0 +1,131 @@
+//go:build verif
+
+// Contracts for the gowp verifier (/verif): comment-only file, compiled only with -tags verif.
+// Layouts are those of RFC 4121 section 4.2.6 (token formats) and 4.2.4 (checksum input).
+package gssapi
+
+//@ define be16at(r, o, x) := r[o] == byte(x >> 8) && r[o+1] == byte(x)
+//@ define be64at(r, o, x) := r[o] == byte(x >> 56) && r[o+1] == byte(x >> 48) && r[o+2] == byte(x >> 40) && r[o+3] == byte(x >> 32)
+//@     && r[o+4] == byte(x >> 24) && r[o+5] == byte(x >> 16) && r[o+6] == byte(x >> 8) && r[o+7] == byte(x)
+//@ define u16(hi, lo) := uint16(hi) << 8 | uint16(lo)
+//@ define u64be(b, o) := uint64(b[o]) << 56 | uint64(b[o+1]) << 48 | uint64(b[o+2]) << 40 | uint64(b[o+3]) << 32
+//@     | uint64(b[o+4]) << 24 | uint64(b[o+5]) << 16 | uint64(b[o+6]) << 8 | uint64(b[o+7])
+
+// RFC 4121 4.2.4: the checksum is computed over { payload | 16-octet header with EC and RRC zero }.
+//@ define wrap_cksum_input(d, payload, flags, sn) := seqlen(d) == len(payload) + 16
+//@     && (forall k int :: 0 <= k && k < len(payload) ==> seqat(d, k) == payload[k])
+//@     && seqat(d, len(payload)) == 0x05 && seqat(d, len(payload)+1) == 0x04 && seqat(d, len(payload)+2) == flags && seqat(d, len(payload)+3) == 0xFF
+//@     && seqat(d, len(payload)+4) == 0 && seqat(d, len(payload)+5) == 0 && seqat(d, len(payload)+6) == 0 && seqat(d, len(payload)+7) == 0
+//@     && seqat(d, len(payload)+8) == byte(sn >> 56) && seqat(d, len(payload)+9) == byte(sn >> 48) && seqat(d, len(payload)+10) == byte(sn >> 40) && seqat(d, len(payload)+11) == byte(sn >> 32)
+//@     && seqat(d, len(payload)+12) == byte(sn >> 24) && seqat(d, len(payload)+13) == byte(sn >> 16) && seqat(d, len(payload)+14) == byte(sn >> 8) && seqat(d, len(payload)+15) == byte(sn)
+//@ define mic_cksum_input(d, payload, flags, sn) := seqlen(d) == len(payload) + 16
+//@     && (forall k int :: 0 <= k && k < len(payload) ==> seqat(d, k) == payload[k])
+//@     && seqat(d, len(payload)) == 0x04 && seqat(d, len(payload)+1) == 0x04 && seqat(d, len(payload)+2) == flags && seqat(d, len(payload)+3) == 0xFF
+//@     && seqat(d, len(payload)+4) == 0xFF && seqat(d, len(payload)+5) == 0xFF && seqat(d, len(payload)+6) == 0xFF && seqat(d, len(payload)+7) == 0xFF
+//@     && seqat(d, len(payload)+8) == byte(sn >> 56) && seqat(d, len(payload)+9) == byte(sn >> 48) && seqat(d, len(payload)+10) == byte(sn >> 40) && seqat(d, len(payload)+11) == byte(sn >> 32)
+//@     && seqat(d, len(payload)+12) == byte(sn >> 24) && seqat(d, len(payload)+13) == byte(sn >> 16) && seqat(d, len(payload)+14) == byte(sn >> 8) && seqat(d, len(payload)+15) == byte(sn)
+
+//@ func (*gssapi.WrapToken).Marshal(wt) (r, err)
+//@   pure
+//@   ensures err == nil <==> wt.CheckSum != nil && wt.Payload != nil
+//@   ensures err != nil ==> r == nil
+//@   ensures err == nil ==> len(r) == 16 + len(wt.Payload) + int(wt.EC)
+//@   ensures err == nil ==> r[0] == 0x05 && r[1] == 0x04 && r[2] == wt.Flags && r[3] == 0xFF
+//@   ensures err == nil ==> be16at(r, 4, wt.EC) && be16at(r, 6, wt.RRC) && be64at(r, 8, wt.SndSeqNum)
+//@   ensures err == nil ==> forall k int :: 0 <= k && k < len(wt.Payload) ==> r[16+k] == wt.Payload[k]
+//@   ensures err == nil && len(wt.CheckSum) == int(wt.EC) ==> forall k int :: 0 <= k && k < len(wt.CheckSum) ==> r[16+len(wt.Payload)+k] == wt.CheckSum[k]
+
+//@ func (*gssapi.WrapToken).Unmarshal(wt, b, expectFromAcceptor) (err)
+//@   modifies *wt
+//@   ensures err == nil <==> len(b) >= 16 && b[0] == 0x05 && b[1] == 0x04 && ((b[2] & 1 == 1) <==> expectFromAcceptor) && b[3] == 0xFF
+//@        && int(u16(b[4], b[5])) <= len(b) - 16
+//@   ensures err == nil ==> wt.Flags == b[2] && wt.EC == u16(b[4], b[5]) && wt.RRC == u16(b[6], b[7]) && wt.SndSeqNum == u64be(b, 8)
+//@   ensures err == nil ==> len(wt.Payload) == len(b) - 16 - int(wt.EC) && len(wt.CheckSum) == int(wt.EC)
+//@   ensures err == nil ==> forall k int :: 0 <= k && k < len(wt.Payload) ==> wt.Payload[k] == b[16+k]
+//@   ensures err == nil ==> forall k int :: 0 <= k && k < len(wt.CheckSum) ==> wt.CheckSum[k] == b[len(b) - int(wt.EC) + k]
+//@   ensures err != nil ==> *wt == old(*wt)
+
+//@ func gssapi.getChecksumHeader(flags, senderSeqNum) (h)
+//@   pure
+//@   ensures len(h) == 16 && fresh(h)
+//@   ensures h[0] == 0x05 && h[1] == 0x04 && h[2] == flags && h[3] == 0xFF && h[4] == 0 && h[5] == 0 && h[6] == 0 && h[7] == 0
+//@   ensures be64at(h, 8, senderSeqNum)
+
+//@ func (*gssapi.WrapToken).computeCheckSum(wt, key, keyUsage) (r, err)
+//@   pure
+//@   trusted_frame returned checksum slice is not tracked as fresh
+//@   ensures err == nil ==> wt.Payload != nil
+//@   ensures err == nil ==> exists t Ref, d Seq :: et_known(t) && et_id(t) == key.KeyType && wrap_cksum_input(d, wt.Payload, wt.Flags, wt.SndSeqNum)
+//@        && bytes(r) == et_cksum(t, bytes(key.KeyValue), keyUsage, d) && len(r) == et_hmacbits(t) / 8
+
+//@ func (*gssapi.WrapToken).Verify(wt, key, keyUsage) (ok, err)
+//@   pure
+//@   trusted_frame see computeCheckSum
+//@   ensures ok ==> err == nil
+//@   ensures ok ==> exists t Ref, d Seq :: et_known(t) && et_id(t) == key.KeyType && wrap_cksum_input(d, wt.Payload, wt.Flags, wt.SndSeqNum)
+//@        && bytes(wt.CheckSum) == et_cksum(t, bytes(key.KeyValue), keyUsage, d)
+
+//@ func (*gssapi.WrapToken).SetCheckSum(wt, key, keyUsage) (err)
+//@   modifies wt.CheckSum
+//@   trusted_frame see computeCheckSum
+//@   ensures err == nil ==> old(wt.CheckSum) == nil && wt.Payload != nil
+//@   ensures err == nil ==> exists t Ref, d Seq :: et_known(t) && et_id(t) == key.KeyType && wrap_cksum_input(d, wt.Payload, wt.Flags, wt.SndSeqNum)
+//@        && bytes(wt.CheckSum) == et_cksum(t, bytes(key.KeyValue), keyUsage, d) && len(wt.CheckSum) == et_hmacbits(t) / 8
+
+//@ func gssapi.NewInitiatorWrapToken(payload, key) (tok, err)
+//@   trusted_frame see computeCheckSum
+//@   pure
+//@   ensures err == nil ==> tok != nil && tok.Flags == 0 && tok.RRC == 0 && tok.SndSeqNum == 0 && tok.Payload == payload
+//@   ensures err == nil ==> exists t Ref, d Seq :: et_known(t) && et_id(t) == key.KeyType && wrap_cksum_input(d, payload, 0, 0)
+//@        && bytes(tok.CheckSum) == et_cksum(t, bytes(key.KeyValue), 24, d) && int(tok.EC) == et_hmacbits(t) / 8 && len(tok.CheckSum) == int(tok.EC)
+
+//@ func (*gssapi.MICToken).getMICChecksumHeader(mt) (h)
+//@   pure
+//@   ensures len(h) == 16 && fresh(h)
+//@   ensures h[0] == 0x04 && h[1] == 0x04 && h[2] == mt.Flags && h[3] == 0xFF && h[4] == 0xFF && h[5] == 0xFF && h[6] == 0xFF && h[7] == 0xFF
+//@   ensures be64at(h, 8, mt.SndSeqNum)
+
+//@ func (*gssapi.MICToken).Marshal(mt) (r, err)
+//@   pure
+//@   ensures err == nil <==> mt.Checksum != nil
+//@   ensures err != nil ==> r == nil
+//@   ensures err == nil ==> len(r) == 16 + len(mt.Checksum)
+//@   ensures err == nil ==> r[0] == 0x04 && r[1] == 0x04 && r[2] == mt.Flags && r[3] == 0xFF && r[4] == 0xFF && r[5] == 0xFF && r[6] == 0xFF && r[7] == 0xFF
+//@   ensures err == nil ==> be64at(r, 8, mt.SndSeqNum)
+//@   ensures err == nil ==> forall k int :: 0 <= k && k < len(mt.Checksum) ==> r[16+k] == mt.Checksum[k]
+
+//@ func (*gssapi.MICToken).Unmarshal(mt, b, expectFromAcceptor) (err)
+//@   modifies *mt
+//@   ensures err == nil <==> len(b) >= 16 && b[0] == 0x04 && b[1] == 0x04 && ((b[2] & 1 != 0) <==> expectFromAcceptor)
+//@        && b[3] == 0xFF && b[4] == 0xFF && b[5] == 0xFF && b[6] == 0xFF && b[7] == 0xFF
+//@   ensures err == nil ==> mt.Flags == b[2] && mt.SndSeqNum == u64be(b, 8) && len(mt.Checksum) == len(b) - 16
+//@   ensures err == nil ==> forall k int :: 0 <= k && k < len(mt.Checksum) ==> mt.Checksum[k] == b[16+k]
+//@   ensures err != nil ==> *mt == old(*mt)
+
+//@ func (*gssapi.MICToken).checksum(mt, key, keyUsage) (r, err)
+//@   pure
+//@   trusted_frame returned checksum slice is not tracked as fresh
+//@   ensures err == nil ==> mt.Payload != nil
+//@   ensures err == nil ==> exists t Ref, d Seq :: et_known(t) && et_id(t) == key.KeyType && mic_cksum_input(d, mt.Payload, mt.Flags, mt.SndSeqNum)
+//@        && bytes(r) == et_cksum(t, bytes(key.KeyValue), keyUsage, d) && len(r) == et_hmacbits(t) / 8
+
+//@ func (*gssapi.MICToken).Verify(mt, key, keyUsage) (ok, err)
+//@   pure
+//@   trusted_frame see checksum
+//@   ensures ok ==> err == nil
+//@   ensures ok ==> exists t Ref, d Seq :: et_known(t) && et_id(t) == key.KeyType && mic_cksum_input(d, mt.Payload, mt.Flags, mt.SndSeqNum)
+//@        && bytes(mt.Checksum) == et_cksum(t, bytes(key.KeyValue), keyUsage, d)
+
+//@ func (*gssapi.MICToken).SetChecksum(mt, key, keyUsage) (err)
+//@   modifies mt.Checksum
+//@   trusted_frame see checksum
+//@   ensures err == nil ==> old(mt.Checksum) == nil && mt.Payload != nil
+//@   ensures err == nil ==> exists t Ref, d Seq :: et_known(t) && et_id(t) == key.KeyType && mic_cksum_input(d, mt.Payload, mt.Flags, mt.SndSeqNum)
+//@        && bytes(mt.Checksum) == et_cksum(t, bytes(key.KeyValue), keyUsage, d)
+
+//@ func gssapi.NewInitiatorMICToken(payload, key) (tok, err)
+//@   pure
+//@   trusted_frame see checksum
+//@   ensures err == nil ==> tok != nil && tok.Flags == 0 && tok.SndSeqNum == 0 && tok.Payload == payload
+//@   ensures err == nil ==> exists t Ref, d Seq :: et_known(t) && et_id(t) == key.KeyType && mic_cksum_input(d, payload, 0, 0)
+//@        && bytes(tok.Checksum) == et_cksum(t, bytes(key.KeyValue), 23, d)
